@@ -25,7 +25,7 @@ CFG = dict(
     technique="Lean 4 proof (invariants by induction over op histories; refutations by evaluation of concrete witnesses) + regenerated "
               "constants/call-site/operator facts + differential run against the real controller, runner, validator start-up and store",
     lean=["Ssv.Props.C15"],
-    engines=[dict(harness="heights", driver="m_heights", case_delim="reset", n_quick=150, n_thorough=1500, thorough_seeds=4,
+    engines=[dict(harness="heights", driver="m_heights", case_delim="reset", n_quick=110, n_thorough=1500, thorough_seeds=4,
                   n_search=1500, search_seeds=4)],
     rule="seeded generator of cases (reset = fresh store + new process, full or light): 6..28 random ops after an optional scripted opening "
          "(late decided message for a past height + restart + the height again; certificates of several rounds with compaction/restart in "
